@@ -356,3 +356,76 @@ def explain_rec(*a):
 
 
 EXPLAIN["_rec"] = explain_rec
+
+
+# ------------------------------------------------------------------ reading Git's answer (the parsing, not Git itself)
+import reuse.vcs as vcs  # noqa: E402
+
+GIT_NAMES = ["build/", "a b.txt", "ü.log", "dir/sub dir/", "x\ny.txt", "-odd", "trailing "]
+
+
+class _Result:
+    def __init__(self, out):
+        self.stdout = out
+        self.returncode = 0
+
+
+def git_story(i, j, k, n):
+    idx = [_pick_from(x, list(range(len(GIT_NAMES)))) for x in (i, j, k)][: _pick_from(n, [0, 1, 2, 3])]
+    listed = []
+    for x in idx:
+        if GIT_NAMES[x] not in listed:
+            listed.append(GIT_NAMES[x])
+    out = "".join(name + "\0" for name in listed).encode("utf-8")
+    subs = "".join(f"submodule.m{q}.path\n{name.rstrip('/')}\0" for q, name in enumerate(listed) if "\n" not in name).encode("utf-8")
+    saved = vcs.execute_command
+
+    def fake(command, logger, cwd=None, **kw):
+        return _Result(subs if "config" in command else out)
+
+    vcs.execute_command = fake
+    try:
+        g = object.__new__(vcs.VCSStrategyGit)
+        g.root = Path("/proj")
+        g._all_ignored_files = g._find_all_ignored_files()
+        g._submodules = g._find_submodules()
+        for name in GIT_NAMES:
+            want = name in listed
+            got = g.is_ignored(Path("/proj") / name.rstrip("/")) if name.endswith("/") else g.is_ignored(Path("/proj") / name)
+            if bool(got) != want:
+                return False, {"git_lists": listed, "path": name, "is_ignored": bool(got), "expected": want}
+        for name in GIT_NAMES:
+            if "\n" in name:
+                continue
+            want = name in listed
+            got = g.is_submodule(Path("/proj") / name.rstrip("/"))
+            if bool(got) != want:
+                return False, {"gitmodules_lists": listed, "path": name, "is_submodule": bool(got), "expected": want}
+        if g.is_ignored(Path("/proj/src/never-listed.py")):
+            return False, {"git_lists": listed, "path": "src/never-listed.py", "is_ignored": True, "expected": False}
+    finally:
+        vcs.execute_command = saved
+    return True, {"git_lists": listed}
+
+
+def _git(i: int, j: int, k: int, n: int) -> bool:
+    """
+    pre: _member(i, list(range(len(GIT_NAMES)))) and _member(j, list(range(len(GIT_NAMES)))) and _member(k, list(range(len(GIT_NAMES)))) and _member(n, [0, 1, 2, 3])
+    post: _
+    """
+    return git_story(i, j, k, n)[0]
+
+
+def _git_reach(i: int, j: int, k: int, n: int) -> bool:
+    """
+    pre: _member(i, list(range(len(GIT_NAMES)))) and _member(j, list(range(len(GIT_NAMES)))) and _member(k, list(range(len(GIT_NAMES)))) and _member(n, [0, 1, 2, 3])
+    post: False
+    """
+    return git_story(i, j, k, n)[0]
+
+
+def explain_git(*a):
+    return git_story(*a)[1]
+
+
+EXPLAIN["_git"] = explain_git
